@@ -797,6 +797,25 @@ def run_context_kinds(job):
                 kind = ["plain", "none", "collection-rename-global", "collection-delete-element-key", "empty", "keys-named-error-status-metadata",
                         "node-writes-key-named-error", "plain-after-fire-and-forget"][i]
                 problems.append(["C15:wrong-result:context-kind:" + kind, "job %d (context kind %s): Future %s, direct execution %s" % (i, kind, got, expected[i])])
+        # a job whose processor calls sys.exit() (a wrapped command-line helper): its Future fails with that SystemExit, like the direct
+        # run, and the worker goes on serving the jobs behind it
+        class ExitingOp(FloatMultiplyOperation):
+            def _process_logic(self, data, factor):
+                raise SystemExit("verif: helper called sys.exit()")
+        efuts = [orch.enqueue([{"processor": ExitingOp, "parameters": {"factor": 2}}], data=FloatDataType(1.0), return_future=True) for _ in range(2)]
+        efuts.append(orch.enqueue([{"processor": FloatMultiplyOperation, "parameters": {"factor": 4}}], data=FloatDataType(1.0), return_future=True))
+        deadline = time.time() + 10
+        outs = []
+        for fut in efuts:
+            try:
+                data, ctx = fut.result(timeout=max(0.2, deadline - time.time()))
+                outs.append(str(data))
+            except BaseException as exc:  # noqa
+                outs.append(type(exc).__name__)
+        if outs != ["SystemExit", "SystemExit", str(FloatDataType(4.0))]:
+            problems.append(["C15:future-never-completes:job-ended-by-system-exit",
+                             "two jobs whose processor raises SystemExit, then a plain job (two workers): Futures give %s; the direct runs give "
+                             "['SystemExit', 'SystemExit', '%s']" % (outs, FloatDataType(4.0))])
         # one context OBJECT handed to several jobs (a caller preparing one context and enqueuing a batch with it): every job
         # still works on what it was given and returns its own result
         shared = ContextType({"tag": 5})
